@@ -23,6 +23,12 @@ impl SourceFileMap {
         self.file_line_ranges.push(SourceLineRanges::default());
     }
 
+    /// Adds a file line that has source ranges (e.g. a line number) but doesn't
+    /// define a BASIC line, because it was empty or couldn't be tokenized.
+    pub(crate) fn add_undefined(&mut self, ranges: SourceLineRanges) {
+        self.file_line_ranges.push(ranges);
+    }
+
     pub(crate) fn add(&mut self, basic_line: u64, ranges: SourceLineRanges) {
         let file_line_number = self.file_line_ranges.len();
         self.basic_lines_to_file_lines
